@@ -1828,6 +1828,202 @@ func (d *driver) pendingDedup(n int) {
 	d.monIssuersAll(e)
 }
 
+// ---- re-keyed scenario: byte-identical TBSCertificate, different issuer key ---------------------
+//
+// Two accepted CAs with the same subject DN and the same subject key identifier but DIFFERENT
+// keys (a CA re-keyed under its name) each sign the same precertificate template: the two
+// precertificates differ in the signature only, the defanged TBSCertificate is byte-identical,
+// and the issuer_key_hash differs. RFC 6962 makes them two distinct PreCert entries. Both are
+// submitted (in the same round; the second while the first is being sequenced; the second after
+// the first was sequenced) and judged by the ordinary monitors of finishCase: the entry at the
+// index the SCT names is the entry ct-go derives for THAT chain (mon_leaf, mon_sct), with the
+// issuer key hash of THAT chain's final CA (mon_twin). cachekey lines tie computeCacheHash to
+// Submit/IssuerModel.v dedup_key.
+
+func (d *driver) rekeyed(n int) {
+	be := newMemBackend()
+	e := d.newLog("rekeyed", 0, be, newMemLock(), true)
+	defer e.log.CloseCache()
+	p := d.p
+	type pair struct {
+		kind, timing string
+		ca           [2]*authority   // the certificate that signs the precertificate
+		final        [2]*authority   // the CA whose key the issuer_key_hash is over
+		path         [2][]*authority // chain certificates, root last
+		sameLeaf     bool            // the two chains carry the very same precertificate bytes
+	}
+	kinds := []string{"rekeyed-root", "rekeyed-intermediate", "rekeyed-behind-signing-cert"}
+	timings := []string{"same-round", "sequencing", "next-round"}
+	var pairs []*pair
+	var roots [][]byte
+	mk := func(i int, kind, timing string) *pair {
+		q := &pair{kind: kind, timing: timing}
+		ski := []byte{0x4b, byte(i >> 8), byte(i), 1}
+		switch kind {
+		case "rekeyed-root":
+			for k := range q.ca {
+				q.ca[k] = p.newAuthority(fmt.Sprintf("root K%d", i), nil, caOpts{ski: ski})
+				q.final[k], q.path[k] = q.ca[k], q.ca[k].pathToRoot()
+				roots = append(roots, q.ca[k].der)
+			}
+		default:
+			root := p.newAuthority(fmt.Sprintf("root K%d", i), nil, caOpts{})
+			roots = append(roots, root.der)
+			var im [2]*authority
+			for k := range im {
+				im[k] = p.newAuthority(fmt.Sprintf("intermediate K%d.1", i), root, caOpts{ski: ski})
+			}
+			if kind == "rekeyed-intermediate" {
+				for k := range q.ca {
+					q.ca[k], q.final[k], q.path[k] = im[k], im[k], im[k].pathToRoot()
+				}
+			} else { // one precertificate, signed by the signing certificate's key; that key is certified under both
+				ps := p.newAuthority(fmt.Sprintf("precert signing PK%d", i), im[0], caOpts{ctEKU: true})
+				ps2 := p.newAuthority(ps.name, im[1], caOpts{ctEKU: true, key: ps.key})
+				q.ca, q.final, q.sameLeaf = [2]*authority{ps, ps2}, im, true
+				q.path = [2][]*authority{ps.pathToRoot(), ps2.pathToRoot()}
+			}
+		}
+		return q
+	}
+	k := 0
+	for _, kind := range kinds {
+		for _, timing := range timings {
+			pairs = append(pairs, mk(k, kind, timing))
+			k++
+		}
+	}
+	for i := 0; i < 2+n/75; i++ {
+		pairs = append(pairs, mk(k, kinds[d.r.Intn(len(kinds))], timings[d.r.Intn(len(timings))]))
+		k++
+	}
+	if err := e.log.SetRootsFromPEM(context.Background(), pemOf(roots...)); err != nil {
+		abort("rekeyed: SetRootsFromPEM failed: %v", err)
+	}
+	e.rootsDER = roots
+	round := func() {
+		time.Sleep(3 * time.Millisecond)
+		if err := e.log.VerifSequence(context.Background()); err != nil {
+			abort("rekeyed: sequencing failed: %v", err)
+		}
+	}
+	for i, q := range pairs {
+		d.p.serial++
+		ls := leafSpec{cn: fmt.Sprintf("rekeyed%d.example.com", d.p.serial), serial: d.p.nextSerial(),
+			notBefore: d.p.now.Add(-time.Hour).Truncate(time.Second), notAfter: d.notAfterAt(2), poison: 1, key: mustKey()}
+		tw := ls
+		tw.poison = 0
+		var cs [2]*subCase
+		var tbs [2][]byte
+		for k := range cs {
+			leaf := issue(q.ca[k], ls)
+			if q.sameLeaf && k == 1 {
+				leaf = cs[0].full[0]
+			}
+			pc, err := sx509.ParseCertificate(leaf)
+			if err != nil {
+				fatal("rekeyed: %v", err)
+			}
+			tbs[k] = pc.RawTBSCertificate
+			full := [][]byte{leaf}
+			for _, a := range q.path[k] {
+				full = append(full, a.der)
+			}
+			sub := full
+			if (i+k)%2 == 1 {
+				sub = full[:len(full)-1]
+			}
+			cs[k] = &subCase{desc: fmt.Sprintf("rekeyed:%s,%s,%s", q.kind, q.timing, []string{"first-key", "second-key"}[k]),
+				ep: "prechain", body: jsonBody(sub), expectJSON: 1, expectValid: 1, full: full, poison: 1, entryExists: true,
+				twin: twinTBS(q.final[k], tw), finalCA: q.final[k], expectLow: 0}
+		}
+		if !bytes.Equal(tbs[0], tbs[1]) || !bytes.Equal(cs[0].twin, cs[1].twin) || bytes.Equal(spkiOf(q.final[0]), spkiOf(q.final[1])) {
+			fatal("rekeyed: the generator did not produce a byte-identical TBSCertificate under two different issuer keys (%s)", q.kind)
+		}
+		for k := range cs { // computeCacheHash on the two entries (and on the x509 entry of the same bytes)
+			ikh := sha256.Sum256(spkiOf(q.final[k]))
+			h := ctlog.VerifComputeCacheHash(cs[k].twin, true, ikh)
+			d.emit("cachekey|1|%s|%s|=>|%s", hx(cs[k].twin), hx(ikh[:]), hx(h[:]))
+			if k == 0 {
+				h = ctlog.VerifComputeCacheHash(cs[k].twin, false, [32]byte{})
+				d.emit("cachekey|0|%s|%s|=>|%s", hx(cs[k].twin), hx(make([]byte, 32)), hx(h[:]))
+			}
+		}
+		d.stats["rekeyed:"+q.kind+","+q.timing]++
+		size0, idx0 := e.treeSize(), len(e.indexes)
+		var rsp [2]response
+		switch q.timing {
+		case "same-round":
+			pA := d.startPending(e, cs[0])
+			pB := d.startPending(e, cs[1])
+			round()
+			d.awaitPending(pA)
+			d.awaitPending(pB)
+			e.queueLowLabels(2)
+			d.reportPending(e, pA)
+			d.reportPending(e, pB)
+			rsp = [2]response{pA.rsp, pB.rsp}
+		case "sequencing":
+			pA := d.startPending(e, cs[0])
+			held, release := be.holdSequencer()
+			seqDone := make(chan error, 1)
+			go func() { seqDone <- e.log.VerifSequence(context.Background()) }()
+			select {
+			case <-held:
+			case <-time.After(20 * time.Second):
+				abort("rekeyed: the round did not reach its first upload")
+			}
+			pB := d.startPending(e, cs[1]) // the first is in inSequencing now
+			release()
+			if err := <-seqDone; err != nil {
+				abort("rekeyed: sequencing failed: %v", err)
+			}
+			d.awaitPending(pA)
+			select {
+			case r := <-pB.ch: // answered from the first one's round
+				pB.ch <- r
+			default:
+				round()
+			}
+			d.awaitPending(pB)
+			e.queueLowLabels(2)
+			d.reportPending(e, pA)
+			d.reportPending(e, pB)
+			rsp = [2]response{pA.rsp, pB.rsp}
+		default: // next-round: the first is sequenced (and in the deduplication cache) when the second arrives
+			for k := range cs {
+				pk := d.startPending(e, cs[k])
+				select {
+				case r := <-pk.ch: // answered without waiting
+					pk.ch <- r
+				default:
+					round()
+				}
+				d.awaitPending(pk)
+				d.reportPending(e, pk)
+				rsp[k] = pk.rsp
+			}
+		}
+		// two chains with different issuer keys are two PreCert entries: two leaves, two indexes
+		res := "holds"
+		if rsp[0].code == 200 && rsp[1].code == 200 {
+			if grew, idx := e.treeSize()-size0, len(e.indexes)-idx0; grew != 2 || idx != 2 {
+				res = fmt.Sprintf("FAILS:two accepted precertificate chains with the same TBSCertificate but different issuer keys (%s, %s) produced %d new leaves and %d new leaf indexes, not 2 and 2:first=%s:second=%s",
+					q.kind, q.timing, grew, idx, hxList(cs[0].full), hxList(cs[1].full))
+			}
+		}
+		d.mon("mon_rekeyed", d.ncase, "rekeyed:"+q.kind+","+q.timing, res)
+	}
+	d.stats["mon:mon_noleaf"]++
+	size := e.treeSize()
+	res := "holds"
+	if size != int64(len(e.indexes)) {
+		res = fmt.Sprintf("FAILS:tree size %d, %d indexes handed out", size, len(e.indexes))
+	}
+	d.emit("mon_noleaf|%s|final|%d|=>|%s", e.name, size, res)
+	d.monIssuersAll(e)
+}
+
 // monIssuersAll: every fingerprint of every entry of the log names a stored object whose SHA-256
 // it is, and every chain certificate of every submission that was answered 200 (also one that
 // was deduplicated against a leaf created through another chain) is stored at issuer/<sha256>
@@ -2038,6 +2234,7 @@ func main() {
 	d.admission()
 	d.issuerFaults(n)
 	d.pendingDedup(n)
+	d.rekeyed(n)
 
 	keys := make([]string, 0, len(d.stats))
 	for k := range d.stats {
